@@ -18,6 +18,13 @@ CLAIMED = {
             "For every action configuration, reader, tick and entity list the model's update stores the table entry for (polled previous state, "
             "new state), delivers exactly those events with the polled payload to every entity, Started first, in the action's dimension; the "
             "transition table and flag order are re-extracted from the source on every run." + CORR, "§5 C01"),
+    "C02": ("Lean 4 theorems (episode automaton accepted for every state history by induction; closing events of trigger_removed; removal "
+            "closes exactly the leaving entity and the lookup fails afterwards, over every reachable state; command-queue discipline) + checked "
+            "correspondence incl. exhaustive lifecycle op sequences and observer-issued deactivations",
+            "Events of every state history form well-formed episodes; remove/despawn/rebuild deliver exactly the terminal events of the affected "
+            "entities with zero value and state None; closing events issued from observers are put at the front of the queue and nothing already "
+            "delivered is lost. The exactly-once statement for arbitrary reaction scripts is proved for reaction-free queues and as a prefix "
+            "property otherwise (partial); Bevy's queue discipline itself is modelled." + CORR, "§5 C02"),
     "C03": ("Lean 4 theorems (fold invariant over arbitrary condition machines, by induction on the condition list; combine/overwrite as list "
             "concatenation/replacement) + checked correspondence incl. exhaustive (kind x result) sequences",
             "The explicit/implicit/blocker law is proved for every list of arbitrary conditions at input level, at action level and for both "
@@ -45,6 +52,10 @@ CLAIMED = {
             "+ checked correspondence on instrumented conditions/modifiers",
             "Each modifier/condition past the held-input suppression is invoked exactly once per frame in the canonical order, with no "
             "hypothesis on results, blockers, consumption or state; proved for actions and whole context instances." + CORR, "§5 C12"),
+    "C14": ("Lean 4 theorems (fan-out of trigger_events to exactly the given entity list, once per holder by Nodup of the holder list from the "
+            "registry invariant; recipients of shared / exclusive group updates by induction over the loops) + checked correspondence",
+            "Every event of a shared instance goes exactly once to each holder with identical payload and to nobody else; exclusive instances "
+            "deliver only to their owner and their state depends on other instances only through the reader." + CORR, "§5 C14"),
     "C20": ("Lean 4 theorems about the value model (case analysis over all values/dimensions) + checked correspondence on direct ActionValue API calls",
             "All conversion laws are proved in Lean for every value and dimension over exact rationals; the model is tied to the real "
             "ActionValue API by running both on an exhaustive grid and random dyadic values and comparing byte for byte.", "§5 C20"),
